@@ -242,6 +242,19 @@ func verifyFunction(w *World, fn *ssa.Function) (rep *FnReport) {
 			oa.seen = false
 		}
 	}
+	// monitor protocol: every change of a waited-for field is followed by a Broadcast before returning
+	for _, class := range w.spec.Conds {
+		k := e.keyCondFlag(class)
+		for ri, rst := range fx.rets {
+			if cur, ok := rst.heap[k]; ok {
+				name := "monitor.wake:" + class[strings.LastIndex(class, "/")+1:]
+				if len(fx.rets) > 1 {
+					name += fmt.Sprintf("@return%d", ri+1)
+				}
+				e.addObl("lock", name, e.autoTags("lock", fn), rst, not(cur), fx.retPos[ri])
+			}
+		}
+	}
 	// lock balance at exit
 	tags := e.autoTags("lock", fn)
 	for _, h := range e.held(out) {
